@@ -101,8 +101,9 @@ ProceedUpd(s, e) ==
                  !.ready = ReadyOnEntry(s, e.res),
                  !.bodyAsked = @ \/ e.res = "SendBody",
                  !.modes = IF s.st = "RecvResponse" /\ e.res = "RecvBody" THEN { m \in @ : NeedBody(m) } ELSE @,
-                 !.facts = IF s.st = "RecvResponse" /\ e.res = "RecvBody" /\ Close \in s.modes
-                           THEN @ \cup {"CloseDelimited"} ELSE @]
+                 \* leaving the body state with bytes of a delimited body unread: the message boundary is lost (C10)
+                 !.facts = (IF s.st = "RecvResponse" /\ e.res = "RecvBody" /\ Close \in s.modes THEN @ \cup {"CloseDelimited"} ELSE @)
+                           \cup (IF s.st = "RecvBody" /\ "body_left" \in DOMAIN e /\ e.body_left THEN {"BoundaryLost"} ELSE {})]
 
 \* try_read_100(): e = [cls, mlen, res ("ok" | "err"), n, keep]
 \*   cls: what the offered input is —
@@ -148,7 +149,7 @@ ResponseFails(s, e) ==
        [] e.kind = "late100" ->
             IF s.await100
             THEN FClause("C11", "a late 100 response must be skipped: consumed exactly, no response returned, flow not ready",
-                         e.res = "none" /\ e.n = e.mlen /\ ~e.ready)
+                         (e.res = "none" /\ e.n = e.mlen /\ ~e.ready) \/ ("lenient" \in DOMAIN e /\ e.lenient /\ e.res = "err"))
             ELSE FClause("C09", "an interim 100 response must be consumed exactly and must not make the flow ready to advance",
                          e.res \in {"none", "some"} /\ e.n = e.mlen /\ ~e.ready)
             \cup FClause("C11", "a late 100 is skipped exactly once: a further 100 must be handed to the caller, not swallowed",
